@@ -31,6 +31,8 @@ for d in sorted(glob.glob(os.path.join(V, 'seeded', '*'))):
         det.append('%s: %s (%ss)' % (c['check'], 'DETECTED' if c['exit'] == 1 else ('missed' if c['exit'] == 0 else 'error'), c['seconds']))
         if c['keys']:
             keys.append(c['keys'].split(';')[0])
+    if m.get('coordinator_assessment'):
+        det.append('ASSESSMENT: ' + m['coordinator_assessment'])
     rows.append('| seeded/%s: %s | %s | %s | %s | %s | %s |' % (
         os.path.basename(d), esc(str(m.get('summary', ''))[:160]), m.get('property', ''), esc(str(m.get('needs', ''))[:200]),
         esc(v.get('unit_suite_with_patch', '').replace('baseline: ', '')), '; '.join(det), esc('; '.join('`%s`' % x for x in keys))))
